@@ -26,6 +26,7 @@ func genExecCase(t *rapid.T, so gen.SchemaOpts, do gen.DocOpts, wo gen.WorldOpts
 	for _, o := range d.Operations() {
 		declares = declares || len(o.Vars) > 0
 	}
+	c.TypedSlices = declares && gen.Chance(t, 25, "typedSlices")
 	if declares && gen.Chance(t, 60, "altVars") {
 		for i, n := 0, gen.Intn(t, 1, 2, "nAltVars"); i < n; i++ {
 			c.AltVars = append(c.AltVars, gen.Variables(t, s, d))
